@@ -45,6 +45,7 @@ type Type struct {
 	Key      TypeID  `json:",omitempty"` // map key / func parameter (0 = none for func)
 	HasKey   bool    `json:",omitempty"`
 	Basic    string  `json:",omitempty"`
+	AltSpell string  `json:",omitempty"` // basic: spelling used in parameter lists (identical type)
 	Len      int     `json:",omitempty"`
 	RecvOnly bool    `json:",omitempty"`
 	Variadic bool    `json:",omitempty"`
@@ -236,6 +237,19 @@ func (c *Case) Expr(id TypeID, from string) string {
 		return q(t.Name, t.Pkg) + "[" + c.Expr(t.Elem, from) + "]"
 	}
 	return "invalid"
+}
+
+// ExprParam renders the type as it is spelled in a provider's PARAMETER list: identical
+// types may be spelled differently there (byte for uint8, rune for int32, any for
+// interface{}), which must not matter for resolution by type.
+func (c *Case) ExprParam(id TypeID, from string) string {
+	if id != CtxType {
+		t := c.T(id)
+		if t.Kind == KBasic && t.AltSpell != "" {
+			return t.AltSpell
+		}
+	}
+	return c.Expr(id, from)
 }
 
 // Describe is a short human-readable name of a type for messages.
